@@ -15,3 +15,5 @@ pub fn enumerate_slice<'a, T>(s: &'a [T]) -> (r: iter::Enumerate<slice::Iter<'a,
         forall|i: int| 0 <= i < s@.len() ==> (#[trigger] r.remaining()[i]).0 == i && *r.remaining()[i].1 == s@[i]
 { s.iter().enumerate() }
 
+// the crate's own helper `enumerate(x)` (src/util.rs) is what D23 reads as `x.into_iter().enumerate()`: pinned by hash
+//@ pin src/util.rs | - | fn enumerate | 4ba4843d0d
